@@ -631,3 +631,54 @@ Print Assumptions frag2_reference_run.
 Theorem frag2_compile_correct_thm : frag2_compile_correct.
 Proof. exact Frag2Glue.frag2_compile_correct_lemma. Qed.
 Print Assumptions frag2_compile_correct_thm.
+
+(* ---------------------------------------------------------------------------------------------
+   CC, the fragment F3 (coq/CC/Frag3Sem.v in_frag3) = F2 plus reads of undefined globals: a name
+   that is not a local in scope and not a key of the initial global table (Run.g_globals, shared by
+   the reference evaluator's and the VM model's initial states) reads as nil: OP_GETGLOBAL in the
+   compiled code, the gettable event on the function environment in the evaluator. The bytecode
+   semantics is isem3 = isem + GETGLOBAL, with its own back half (coq/CC/CompFactsVM3.v: the
+   simulation relation also records that the global table is the initial one). *)
+From GL Require Import CC.Frag3Sem.
+From GL Require CC.CompFactsVM3 CC.Frag3Facts CC.Frag3Eval CC.Frag3Glue.
+
+Definition frag3_compile_correct : Prop :=
+  forall b p, in_frag3 b = true -> compile_frag b = Some p ->
+  exists n, forall fuel, (n <= fuel)%nat ->
+    is_skip (outcome_of (Run.run_program fuel no_devs b)) = false ->
+    outcome_of_vfin (run_proto fuel p) = outcome_of (Run.run_program fuel no_devs b).
+
+Theorem frag2_in_frag3 : forall b, in_frag2 b = true -> in_frag3 b = true.
+Proof. exact Frag3Glue.frag2_in_frag3. Qed.
+Print Assumptions frag2_in_frag3.
+
+(* back half for isem3: the VM model runs ANY straight-line main chunk made of the fragment's
+   opcodes and GETGLOBAL of undefined names, MOVEN merging included, as isem3 says *)
+Theorem vm_runs_isem3 : forall ul consts nregs fuel,
+  0 <= nregs -> Forall (fun wl => 0 <= fst wl < 2 ^ 32) ul -> (length ul + 2 <= fuel)%nat ->
+  match isem3_code consts ul [] with
+  | CRet vs => exists s', run_proto fuel (CompFactsVM3.frag_proto ul consts nregs) = VFinOk vs s' /\ vtrace s' = []
+  | CFault ln => exists s', run_proto fuel (CompFactsVM3.frag_proto ul consts nregs) = VFinErr (VFault 2 ln) s' /\ vtrace s' = []
+  | _ => True
+  end.
+Proof. exact CompFactsVM3.vm_runs_isem_lemma. Qed.
+Print Assumptions vm_runs_isem3.
+
+Theorem frag3_compile_front_half : Frag3Glue.front_half3.
+Proof. exact Frag3Facts.front_half3_lemma. Qed.
+Print Assumptions frag3_compile_front_half.
+
+Theorem frag3_reference_run : forall b fuel d, in_frag3 b = true -> (Frag3Eval.frag_fuel3 b <= fuel)%nat ->
+  match prun3 [] b with
+  | CRet vs => exists s', Run.run_program fuel d b = Run.FinOk vs s' /\ trace s' = [] /\ forallb is_sval vs = true
+  | CFault ln => exists s', Run.run_program fuel d b = Run.FinErr (VFault 2 ln) s' /\ trace s' = []
+  | CUnsup => Run.run_program fuel d b = Run.FinUnsup 1
+  | CStuck => False
+  end.
+Proof. exact Frag3Eval.frag3_run_lemma. Qed.
+Print Assumptions frag3_reference_run.
+
+(* THE theorem on F3 *)
+Theorem frag3_compile_correct_thm : frag3_compile_correct.
+Proof. exact Frag3Glue.frag3_compile_correct_lemma. Qed.
+Print Assumptions frag3_compile_correct_thm.
